@@ -92,6 +92,8 @@ def agree(pathsmap, q, doc, stage):
     for name, (kind, _) in pathsmap.items():
         o = outcomes[name]
         if base[0] == "err":
+            if kind == "one" and base[1] == "JSONPathRecursionError" and (o[0] == "ok" or o == base):
+                continue  # an evaluation error: find_one may return a node that precedes it
             if o != base:
                 return fail(f"reconfigured:error-class-differs:{name}", f"{stage}: {name}({q!r}) gives {_show(o)}, a fresh compile raises {base[1]}", base, o)
         elif kind == "list":
@@ -124,27 +126,104 @@ def examine_reconfigure(case):
     doc = case["doc"]
     env.function_extensions["f"] = mk([T.VALUE], T.LOGICAL, True)
     env.function_extensions["g"] = mk([T.VALUE], T.VALUE, 1)
+    stored = {}
     for q in case["queries"]:
         f = agree(pm, q, doc, "before reconfiguration")
         if f:
             return f
+        try:
+            stored[q] = env.compile(q)
+        except Exception:  # noqa: BLE001
+            pass
     how = case["how"]
+    via = case.get("via", "item")
+    reg = env.function_extensions
+
+    def put(name, fn):
+        # every public way of changing a mapping
+        if via == "item":
+            reg[name] = fn
+        elif via == "update":
+            reg.update({name: fn})
+        elif via == "ior":
+            reg.__ior__({name: fn})
+        elif via == "pop-setdefault":
+            reg.pop(name, None)
+            reg.setdefault(name, fn)
+        else:
+            del reg[name]
+            reg[name] = fn
+
+    def drop(name):
+        if via in ("item", "update", "ior"):
+            del reg[name]
+        elif via == "pop-setdefault":
+            reg.pop(name)
+        else:
+            # popitem() until the name is gone, then put the others back with setdefault
+            taken = []
+            while name in reg:
+                taken.append(reg.popitem())
+            for k, v in reversed(taken):
+                if k != name:
+                    reg.setdefault(k, v)
+
     if how == "delete":
-        del env.function_extensions["f"]
-        del env.function_extensions["length"]
+        drop("f")
+        drop("length")
     elif how == "retype":
-        env.function_extensions["f"] = mk([T.VALUE, T.VALUE], T.LOGICAL, False)
-        env.function_extensions["g"] = mk([T.NODES], T.LOGICAL, True)
+        put("f", mk([T.VALUE, T.VALUE], T.LOGICAL, False))
+        put("g", mk([T.NODES], T.LOGICAL, True))
     elif how == "bounds":
         env.max_int_index = 1
         env.min_int_index = -1
     elif how == "behaviour":
-        env.function_extensions["f"] = mk([T.VALUE], T.LOGICAL, False)
-        env.function_extensions["g"] = mk([T.VALUE], T.VALUE, 2)
+        put("f", mk([T.VALUE], T.LOGICAL, False))
+        put("g", mk([T.VALUE], T.VALUE, 2))
+    elif how == "recursion-limit":
+        env.max_recursion_depth = case.get("limit", 2)
+    # what the reconfigured environment must accept, judged independently (reference type checker)
+    from vlib.ref import abnf, typecheck
+    from vlib.ref.evaluate import BUILTINS
+    model = {k: {"params": v["params"], "ret": v["ret"]} for k, v in BUILTINS.items()}
+    model["f"] = {"params": ["Value"], "ret": "Logical"}
+    model["g"] = {"params": ["Value"], "ret": "Value"}
+    lo, hi = -(2**53) + 1, 2**53 - 1
+    if how == "delete":
+        del model["f"], model["length"]
+    elif how == "retype":
+        model["f"] = {"params": ["Value", "Value"], "ret": "Logical"}
+        model["g"] = {"params": ["Nodes"], "ret": "Logical"}
+    elif how == "bounds":
+        lo, hi = -1, 1
     for q in case["queries"]:
-        f = agree(pm, q, doc, f"after reconfiguration ({how})")
+        f = agree(pm, q, doc, f"after reconfiguration ({how} via {via})")
         if f:
             return f
+        res = abnf.classify(q)
+        if res.verdict == abnf.VALID:
+            want_ok = typecheck.check(res.ast, model, lo, hi) is None
+            st, got = lib.compile_(q, env)
+            if want_ok and st != "ok":
+                return fail("reconfigured:valid-query-refused", f"after reconfiguration ({how} via {via}) {q!r} is valid for the new "
+                            f"configuration but compile() raises {got['type']}", "compiles", got)
+            if not want_ok and st == "ok":
+                return fail("reconfigured:invalid-query-accepted", f"after reconfiguration ({how} via {via}) {q!r} is not valid for the new "
+                            f"configuration ({typecheck.check(res.ast, model, lo, hi)}) but compile() still accepts it", "JSONPathError", "compiled")
+        # a query compiled before the change, applied after it, behaves like a fresh compile whenever the text
+        # still compiles (configuration is read when the query is applied)
+        if q in stored and how in ("behaviour", "recursion-limit"):
+            try:
+                fresh = ("ok", sig_nodes(list(env.compile(q).finditer(doc))))
+            except Exception as e:  # noqa: BLE001
+                fresh = ("err", type(e).__name__)
+            try:
+                old = ("ok", sig_nodes(list(stored[q].finditer(doc))))
+            except Exception as e:  # noqa: BLE001
+                old = ("err", type(e).__name__)
+            if old != fresh:
+                return fail("reconfigured:stored-query-differs", f"after reconfiguration ({how}): a query compiled before ({q!r}) gives "
+                            f"{_show(old)}, a fresh compile gives {_show(fresh)}", _show(fresh), _show(old))
     return None
 
 
@@ -238,8 +317,13 @@ def run_shard(spec, shard):
         elif k < 0.32:
             qs = r.sample(["$[?f(@.a)]", "$[?g(@.a) == 1]", "$[?length(@) > 1]", "$[2]", "$[-2:]", "$[?f(@)]..[1]", "$[?!f(@.b)]",
                            "$..[?g(@) == 1]", "$[?count(@.*) > 0 && f(1)]", "$[0]", "$[?@[5]]"], 4)
-            case = {"kind": "reconfigure", "doc": doc, "queries": qs, "how": r.choice(["delete", "retype", "bounds", "behaviour"])}
-            shard.case(key=(qs, case["how"], doc), nontrivial=True, classes={"reconfigure:" + case["how"]}, sample={"queries": qs, "how": case["how"]})
+            case = {"kind": "reconfigure", "doc": doc, "queries": qs, "how": r.choice(["delete", "retype", "bounds", "behaviour", "recursion-limit"]),
+                    "via": r.choice(["item", "update", "ior", "pop-setdefault", "popitem"]), "limit": r.choice([1, 2, 3])}
+            if case["how"] == "recursion-limit":
+                case["queries"] = r.sample(["$..a", "$..*", "$[0]..[?f(@)]", "$..[?g(@) == 1]", "$.a..b", "$..[0]", "$[?count(@..*) > 1]"], 4)
+                case["doc"] = r.choice([doc, nest(r.choice([2, 3, 4, 5])), [nest(3), nest(1)]])
+            shard.case(key=(case["queries"], case["how"], case["via"], case["doc"]), nontrivial=True,
+                       classes={"reconfigure:" + case["how"], "via:" + case["via"]}, sample={"queries": case["queries"], "how": case["how"], "via": case["via"]})
             f = examine(case)
             if f:
                 shard.fail(f["bucket"], case, f)
